@@ -3,6 +3,7 @@ package w9
 import (
 	"encoding/binary"
 	"fmt"
+	"time"
 
 	"github.com/buildbarn/go-xdr/pkg/protocols/nfsv4"
 )
@@ -76,7 +77,42 @@ func (ln *lane) loop() {
 			}
 		}
 		ln.send(req)
+		if ln.quiet > 0 {
+			ln.quietPeriod()
+		}
 	}
+}
+
+const quietStep = enforcedLease/2 + time.Second
+
+// quietPeriod: after closing one of several files of an open-owner the lane
+// sends nothing on behalf of that open-owner for longer than the lease time,
+// while it keeps the client's lease alive (RENEW at intervals shorter than the
+// lease, now and then a READ with the state ID of a file that is still open).
+// Whatever the open-owner still has open must survive that.
+func (ln *lane) quietPeriod() {
+	w := ln.w
+	c := ln.cl
+	w.k.Probe("quiet-period-after-partial-close")
+	for ln.quiet > 0 && !w.stopping {
+		ln.quiet--
+		target := w.now().Add(quietStep)
+		ln.quietWait = true
+		w.k.SeamWhen("quiet-wait", func() bool { return !w.now().Before(target) || w.stopping })
+		ln.quietWait = false
+		if w.stopping || !c.registered || (c.minor == 1 && (c.sess == nil || !c.sess.alive)) {
+			break
+		}
+		read := w.t.Bool(1, 3)
+		ln.issued++
+		ln.send(ln.reqRenew())
+		if of := ln.quietOf; read && of != nil && of.o.files[string(of.fh)] == of && !w.stopping && c.registered && (c.minor == 0 || (c.sess != nil && c.sess.alive)) {
+			ln.issued++
+			ln.send(ln.reqIO(of.fh, of.sid, 0, "open state kept through a quiet period"))
+		}
+	}
+	ln.quiet = 0
+	ln.quietOf = nil
 }
 
 // ---------------------------------------------------------------------------
@@ -669,7 +705,20 @@ func (ln *lane) choose() (req *request, quit bool) {
 		return ln.reqOpen(o, pick(t, w.names), access, how, nil)
 	})
 	if len(files) > 0 {
-		add(7, func() *request { of := pick(t, files); return ln.reqClose(of, of.sid) })
+		add(7, func() *request {
+			of := pick(t, files)
+			if others := of.o.sortedFiles(); len(others) >= 2 && w.timePressure > 0 && t.Bool(1, 2) {
+				// Close one of several files of this open-owner, then keep
+				// quiet (but renewing) for longer than the lease time.
+				for _, x := range others {
+					if x != of {
+						ln.quietOf = x
+					}
+				}
+				ln.quiet = 2 + t.Choice(2)
+			}
+			return ln.reqClose(of, of.sid)
+		})
 		add(3, func() *request {
 			of := pick(t, files)
 			if of.access != 3 {
